@@ -26,12 +26,12 @@ RULE = ("cases: histories of 2-7 steps on ONE operator object (PD operators of e
         "derived from and into) are snapshotted when first seen and are bit-identical at the end of the history. Samples are drawn but not "
         "compared (roots are not unique); answers whose history-free value changes with the RNG state are counted as not comparable. "
         "Cache hits are counted (memo getters wrapped); a run without hits is inconclusive. distinct key = (root class, "
-        "query, position in history, previous step, settings key) [round 4: settings include rank-truncating max_root_decomposition_size (n // 2); directed histories 'truncated Lanczos query -> derivation -> explicit-method query'; a rank-deficient answer is excused as a Krylov compression only when a Lanczos run happened during the query itself, or for default-method / Lanczos-named queries answered from the cache - never for queries naming a direct method; transplants from a rank-deficient parent root are counted, not judged] [round 6: queries chol_inverse / chol_upper_inverse reach into the factor objects the operator hands out]")
+        "query, position in history, previous step, settings key) [round 4: settings include rank-truncating max_root_decomposition_size (n // 2); directed histories 'truncated Lanczos query -> derivation -> explicit-method query'; a rank-deficient answer is excused as a Krylov compression only when a Lanczos run happened during the query itself, or for default-method / Lanczos-named queries answered from the cache - never for queries naming a direct method; transplants from a rank-deficient parent root are counted, not judged] [round 6: queries chol_inverse / chol_upper_inverse reach into the factor objects the operator hands out] [round 7: query root_inv_lanczos_iv1 - a Lanczos inverse root from ONE supplied start vector on dense operators (the run also leaves a root in the cache, which later root queries read)]")
 ASSUMPTIONS = ["a fresh build of the same spec is the history-free reference", "canonical forms remove the legitimate non-uniqueness of roots and eigenvectors",
                "tolerances: direct 1e-7 (f64) / 5e-3 (f32); 5e-3 when a Lanczos-based result is involved (lanczos.* hook events)"]
 REQUIRED_STATS = ("queries", "cache_hits")
 
-QUERIES = ["to_dense", "diagonal", "cholesky", "cholesky_upper", "chol_inverse", "chol_upper_inverse", "root", "root_cholesky", "root_lanczos", "root_symeig", "root_inv", "root_inv_lanczos",
+QUERIES = ["to_dense", "diagonal", "cholesky", "cholesky_upper", "chol_inverse", "chol_upper_inverse", "root", "root_cholesky", "root_lanczos", "root_symeig", "root_inv", "root_inv_lanczos", "root_inv_lanczos_iv1",
            "root_inv_cholesky", "diagonalization", "diagonalization_lanczos", "svd", "eigh", "eigvalsh", "solve", "logdet", "inv_quad_logdet",
            "preconditioner", "sample"]
 DERIVS = ["add_jitter", "add_diagonal", "add_low_rank", "cat_rows", "getitem", "transpose", "scale", "expand"]
@@ -88,7 +88,7 @@ def gen_cases(ctx):
             # for an explicit method (derived classes that delegate to their parent must pass the method on, not read the parent's cache)
             trunc = dict(max_cholesky_size=rng.choice([None, 0]), fast_root=None, max_root_decomposition_size=max(1, n // 2))
             dflt = dict(max_cholesky_size=None, fast_root=None, max_root_decomposition_size=None)
-            steps = [dict(kind="query", name=rng.choice(["root_inv_lanczos", "root_lanczos", "diagonalization_lanczos", "root", "root_inv"]), cfg=trunc, seed=rng.randrange(1 << 30)),
+            steps = [dict(kind="query", name=rng.choice(["root_inv_lanczos", "root_inv_lanczos_iv1", "root_lanczos", "diagonalization_lanczos", "root", "root_inv"]), cfg=trunc, seed=rng.randrange(1 << 30)),
                      dict(kind="derive", name=rng.choice(DERIVS)),
                      dict(kind="query", name=rng.choice(["root_cholesky", "root_symeig", "root_inv_cholesky", "cholesky", "solve", "logdet", "root", "root_inv"]), cfg=dflt, seed=rng.randrange(1 << 30))]
         yield dict(spec=spec, steps=steps[:8], rseed=rng.randrange(1 << 30))
@@ -147,8 +147,12 @@ def query(op, name, seed, dense, rng_seed=None):
         # a query on the factor object the operator hands out (the upper factor is derived from the cached lower one by transposition)
         return _dense(op.cholesky(upper="upper" in name).inverse())
     if name.startswith("root_inv"):
-        m = {"root_inv": None, "root_inv_lanczos": "lanczos", "root_inv_cholesky": "cholesky"}[name]
-        R = _dense(op.root_inv_decomposition(method=m).root)
+        m = {"root_inv": None, "root_inv_lanczos": "lanczos", "root_inv_cholesky": "cholesky", "root_inv_lanczos_iv1": "lanczos"}[name]
+        if name.endswith("iv1") and type(op).__name__ == "DenseLinearOperator":
+            # round 7: ONE supplied start vector (dense operators only - C09's quantifier); the run leaves a root in the cache as well
+            R = _dense(op.root_inv_decomposition(initial_vectors=rhs[..., :1], method=m).root)
+        else:
+            R = _dense(op.root_inv_decomposition(method=m).root)
         return R @ R.mT
     if name.startswith("root"):
         m = {"root": None, "root_cholesky": "cholesky", "root_lanczos": "lanczos", "root_symeig": "symeig"}[name]
@@ -579,7 +583,7 @@ def _run_history(case, ctx, keep_alive, snaps, kw_box):
                 # other.  Only when a Lanczos run took place during THIS query (on either object): an answer read from a cache is
                 # excused by the RNG-dependence test below, which asks whether the query legitimately is Lanczos-based
                 ctx.stat("answers_are_krylov_compressions_not_comparable")
-            elif (not err <= tol * (100 if name.startswith("root_inv") else 1) and hits > 0 and lanczos_seen and name in ("root", "root_inv", "diagonalization", "root_lanczos", "root_inv_lanczos", "diagonalization_lanczos")
+            elif (not err <= tol * (100 if name.startswith("root_inv") else 1) and hits > 0 and lanczos_seen and name in ("root", "root_inv", "diagonalization", "root_lanczos", "root_inv_lanczos", "root_inv_lanczos_iv1", "diagonalization_lanczos")
                   and _both_compressions(name, got, got, Hd)):
                 # memo keys carry the arguments, not the settings: a default-method / Lanczos answer computed by an earlier Lanczos run
                 # (truncated by max_root_decomposition_size, or with an exhausted Krylov space) is what the cache legitimately returns
